@@ -41,25 +41,27 @@ type held struct {
 }
 
 type world struct {
-	cfg      int
-	fill     bool // storage probe: populate every nil reference field of Device before constructing
-	devices  []uhppote.Device
-	u        uhppote.IUHPPOTE
-	fake     *drv.Fake
-	routes   map[uint32]routeT // as constructed
-	built    map[uint32]string // rendering of each configured device as constructed
-	list     map[uint32]uhppote.Device
-	held     []held
-	card     types.Card
-	cardC    *types.Card // clone
-	profile  types.TimeProfile
-	task     types.Task
-	readers  map[uint8]bool
-	codes    [8]uint32           // passcodes are passed as codes[0:3]: a slice with spare capacity
-	formats  [4]types.CardFormat // card formats are passed as formats[0:3] (any, Wiegand-26, Wiegand-26)
-	devClone *uhppote.Device
-	flags    map[string]bool
-	viol     func(key, what string)
+	cfg  int
+	fill bool // storage probe: populate every nil reference field of Device before constructing
+	// storage probe, second variant: every slice of Device empty but with spare capacity
+	emptySlices bool
+	devices     []uhppote.Device
+	u           uhppote.IUHPPOTE
+	fake        *drv.Fake
+	routes      map[uint32]routeT // as constructed
+	built       map[uint32]string // rendering of each configured device as constructed
+	list        map[uint32]uhppote.Device
+	held        []held
+	card        types.Card
+	cardC       *types.Card // clone
+	profile     types.TimeProfile
+	task        types.Task
+	readers     map[uint8]bool
+	codes       [8]uint32           // passcodes are passed as codes[0:3]: a slice with spare capacity
+	formats     [4]types.CardFormat // card formats are passed as formats[0:3] (any, Wiegand-26, Wiegand-26)
+	devClone    *uhppote.Device
+	flags       map[string]bool
+	viol        func(key, what string)
 }
 
 func render(v any) string {
@@ -127,14 +129,17 @@ func (w *world) construct(cfg int) {
 		}
 		return nil, nil
 	}}
-	w.built = map[uint32]string{}
-	for _, d := range w.devices {
-		w.built[d.DeviceID] = renderDevice(d)
-	}
 	if w.fill {
 		for i := range w.devices {
 			fillReferences(reflect.ValueOf(&w.devices[i]).Elem())
+			if w.emptySlices {
+				emptyWithCapacity(reflect.ValueOf(&w.devices[i]).Elem())
+			}
 		}
+	}
+	w.built = map[uint32]string{}
+	for _, d := range w.devices {
+		w.built[d.DeviceID] = renderDevice(d)
 	}
 	w.u = uhppote.NewUHPPOTE(types.BindAddr{}, types.BroadcastAddr{}, types.ListenAddr{}, time.Second, w.devices, false)
 	if sh := sharedStorage(w.devices, w.u); len(sh) > 0 {
@@ -448,11 +453,16 @@ func main() {
 	// storage probe: the same three configurations with every reference-typed field of Device that is
 	// nil given a fresh non-nil value by reflection (so a field this harness does not know by name takes
 	// part); no call is made through these clients - only who reaches whose storage is examined
-	for cfg := 0; cfg < 3; cfg++ {
+	for probe := 0; probe < 6; probe++ {
+		cfg, empty := probe%3, probe >= 3
+		how := "every nil reference field of Device populated"
+		if empty {
+			how += ", every slice empty with spare capacity"
+		}
 		w := newWorld(func(key, what string) {
-			r.Violation("C17/"+key, fmt.Sprintf("%s — configuration %d with every nil reference field of Device populated", what, cfg), "history", map[string]any{"events": []string{fmt.Sprintf("construct-%d", cfg), "clone-device-mutate", "device-list"}})
+			r.Violation("C17/"+key, fmt.Sprintf("%s — configuration %d with %s", what, cfg, how), "history", map[string]any{"events": []string{fmt.Sprintf("construct-%d", cfg), "clone-device-mutate", "device-list"}})
 		})
-		w.fill = true
+		w.fill, w.emptySlices = true, empty
 		if p, msg, frame := vk.Guard(func() {
 			w.construct(cfg)
 			w.apply("clone-device-mutate")
